@@ -388,7 +388,8 @@ Definition add_entries (v : variant) (P : params) (es : list entry) (d : disk) :
   end.
 
 (* --- a Save in which one file-system step fails (granularity: the store's own write operations) ---
-   FClear:      the write that clears the slots of the discarded tail fails.
+   FClear c:    a write that clears slots of the discarded tail fails. The range is cleared in pieces from the top down
+                (/repo 9ca27cd); c = number of slots already cleared by completed pieces (0: the first piece fails).
    FEntry j r:  entry number j of the batch (from 0) does not become visible: its payload or slot write fails (r = true
                 when a rotation that had to precede it was completed), or that rotation itself fails (r = false).
    FHs / FSnap: all entries are written; the write of the hard state / of the snapshot fails.
@@ -396,20 +397,27 @@ Definition add_entries (v : variant) (P : params) (es : list entry) (d : disk) :
    them; before fe68fb6 the result of the clearing write was dropped: the Save went on over the stale slots and
    reported success. A fault that does not apply to the Save at hand (nothing to clear, j beyond the batch, nothing to
    store) is no fault: an ordinary Save. *)
-Inductive fault := FClear | FEntry (j : nat) (rotated : bool) | FHs | FSnap.
+Inductive fault := FClear (c : N) | FEntry (j : nat) (rotated : bool) | FHs | FSnap.
 
 Definition store_meta (h : option hardstate) (s : option snapshot) (d : disk) : disk :=
   mkdisk (d_files d) (d_cur d) (d_next d) (store_snap s (store_hs h (d_meta d))).
 
-(* the state in which the clearing write of VZeroSlots fails: nothing has changed for a conflict in the current file;
-   for a conflict in a rotated file the later files are gone and that file is the current one, up to its first empty slot *)
-Definition clear_failed (P : params) (b : N) (d : disk) : option disk :=
+(* the state in which a clearing write of VZeroSlots fails after c slots have been cleared from the top: for a conflict in
+   the current file the log ends at the first empty slot; for a conflict in a rotated file the later files are gone and
+   that file is the current one, up to its first empty slot. None: nothing is cleared at all, or c does not leave the
+   slot of the conflicting index for the failing piece *)
+Definition clear_part (hi c : N) (f : file) : file := if c =? 0 then f else zero_slots hi (hi - c) f.
+Definition clear_failed (P : params) (b c : N) (d : disk) : option disk :=
   match slot_ge P d b with
-  | (InCur, Some lo) => if lo <? d_next d then Some d else None
+  | (InCur, Some lo) =>
+      if (lo <? d_next d) && (lo + c <? d_next d)
+      then Some (mkdisk (d_files d) (clear_part (d_next d) c (d_cur d)) (d_next d - c) (d_meta d))
+      else None
   | (InOld k, Some lo) =>
       let f := nth k (d_files d) (d_cur d) in
-      if lo <? max_entries P
-      then Some (mkdisk (firstn k (d_files d)) f (first_empty_slot P f) (d_meta d))
+      if (lo <? max_entries P) && (lo + c <? max_entries P)
+      then let f' := clear_part (max_entries P) c f in
+           Some (mkdisk (firstn k (d_files d)) f' (first_empty_slot P f') (d_meta d))
       else None
   | _ => None
   end.
@@ -433,8 +441,8 @@ Definition save_fail (v : variant) (P : params) (es : list entry) (h : option ha
            (ft : fault) (d : disk) : bool * disk :=
   let whole := store_meta h s (add_entries v P es d) in
   match es, ft with
-  | e0 :: _, FClear =>
-      match clear_failed P (e_index e0) d with
+  | e0 :: _, FClear c =>
+      match clear_failed P (e_index e0) c d with
       | None => (false, whole)
       | Some d1 =>
           match v with
